@@ -336,6 +336,10 @@ def rule_m2345(prog: Program, col: Collector) -> None:
             fp = fr.positional_params() if fr else []
             ident = any(x.value == ("param", fp[1]) and any(f[0] == "if" and f[2] is True and f[1] == ("cmp", "is", ("param", fp[2]), ("const", None)) for f in x.ctx)
                         for x in frv) if fr else False
+            # ... or the same as one folded formula (guard inverted, body moved into a helper that is read through): values if coalitions is None else ...
+            fres = fterms(prog, fr).result() if fr else ("unknown", "")
+            if not ident and fres[0] == "ifexp" and fres[1] == ("cmp", "is", ("param", fp[2]), ("const", None)) and fres[2] == ("param", fp[1]):
+                ident = True
             is_view = is_view and ident
         col.check(is_view, gr.where(), gr.short, f"{g}(None) returns a view of the table column (the in-place division takes effect)", construct=f"view:{g}",
                   necessity="if the getter returns a copy the division silently has no effect: the game is not normalised")
